@@ -14,6 +14,10 @@ type BFS struct {
 	NumOps    int
 	MaxDepth  int // number of operations; 0 = unbounded (fixpoint)
 	MaxStates int // safety cap; 0 = none
+	// MaxTransitions: second safety cap, checked inside a level (a search that
+	// does not converge because a change made the state space unbounded must
+	// not run for hours): 0 = none. Hitting it makes the search Capped.
+	MaxTransitions int64
 
 	// Run executes path on a fresh instance (checking whatever invariants the
 	// property demands on the way, at least for the last operation) and returns
@@ -107,6 +111,9 @@ func (b *BFS) Explore(initKey string) {
 		var mu sync.Mutex
 		var next [][]uint16
 		ParallelFor(len(frontier), func(i int) {
+			if b.MaxTransitions > 0 && trans.Load() >= b.MaxTransitions {
+				return
+			}
 			p := frontier[i]
 			var local [][]uint16
 			path := make([]uint16, len(p)+1)
@@ -140,6 +147,10 @@ func (b *BFS) Explore(initKey string) {
 		})
 		frontier = next
 		depth++
+		if b.MaxTransitions > 0 && trans.Load() >= b.MaxTransitions {
+			b.Capped = true
+			break
+		}
 		if b.Stop != nil && b.Stop() {
 			b.Capped = true
 			break
